@@ -3,13 +3,47 @@ import asyncio
 import heapq
 import itertools
 import math
+import signal
 import sys
+import time as _walltime
 import threading
 from asyncio import events
 
 
 class Livelock(RuntimeError):
     pass
+
+
+class StepStall(BaseException):
+    """One callback of a simulated process did not return within the wall-clock limit: the code under test blocks
+    its event loop (a synchronous spin). It is raised *inside* the spinning code by a watchdog."""
+
+
+STEP_LIMIT_S = 10.0
+_watch = {'since': None, 'thread': None, 'fired': False}
+
+
+def _on_stall(signum, frame):
+    if _watch['since'] is not None:
+        _watch['fired'] = True
+        raise StepStall()
+
+
+def _watchdog():
+    import time as _time
+    while True:
+        _time.sleep(1.0)
+        since = _watch['since']
+        if since is not None and _time.monotonic() - since > STEP_LIMIT_S and not _watch['fired']:
+            signal.pthread_kill(threading.main_thread().ident, signal.SIGUSR1)
+
+
+def _ensure_watchdog():
+    if _watch['thread'] is None and threading.current_thread() is threading.main_thread():
+        signal.signal(signal.SIGUSR1, _on_stall)
+        t = threading.Thread(target=_watchdog, daemon=True, name='kopfsim-step-watchdog')
+        t.start()
+        _watch['thread'] = t
 
 
 class ProcLoop(asyncio.SelectorEventLoop):
@@ -65,9 +99,15 @@ class ProcLoop(asyncio.SelectorEventLoop):
         self._thread_id = threading.get_ident()
         sys.set_asyncgen_hooks(firstiter=self._asyncgen_firstiter_hook, finalizer=self._asyncgen_finalizer_hook)
         events._set_running_loop(self)
+        _watch['since'], _watch['fired'] = _walltime.monotonic(), False
         try:
             self._run_once()
+        except StepStall:
+            self.world.stalls.append((self.name, self.world.now))
         finally:
+            if _watch['fired']:
+                self.world.stalls.append((self.name, self.world.now))
+            _watch['since'] = None
             self._thread_id = None
             events._set_running_loop(None)
             sys.set_asyncgen_hooks(*old_hooks)
@@ -88,6 +128,8 @@ class World:
         self.agenda = []      # (when, seq, fn)
         self.seq = itertools.count()
         self.loop_errors = []
+        self.stalls = []      # (process, virtual time): a callback blocked its loop beyond STEP_LIMIT_S of wall-clock time
+        _ensure_watchdog()
         self.steps = 0
         self.max_zero_time_steps = max_zero_time_steps
         self.order = None     # optional callable: list of names -> list of names (schedule knob)
@@ -135,6 +177,12 @@ class World:
             if progressed:
                 zero += 1
                 self.steps += 1
+                if zero > 1000:
+                    # A real clock never stands still between loop iterations. Let the virtual one creep by one
+                    # representable step per iteration once nothing else moves it: loops of the kind
+                    # "sleep(deadline - now) until now >= deadline" that hit a float-rounding residue then terminate,
+                    # while a genuine busy loop (which needs seconds to pass) still ends in Livelock.
+                    self.now = math.nextafter(self.now, math.inf)
                 if zero > self.max_zero_time_steps:
                     raise Livelock(f'no progress of time within {zero} steps at t={self.now}')
                 continue
